@@ -101,6 +101,14 @@ func showModel(p *Program, an *Analysis, s *Set) (imports []string, groups map[s
 	seen := map[int]bool{}
 	var walk func(id int)
 	walk = func(id int) {
+		if t := p.Sets[id]; t.AliasOf > 0 {
+			// an alias is the very same set as its target: show lists the target by name
+			if !seen[t.AliasOf-1] {
+				seen[t.AliasOf-1] = true
+				walk(t.AliasOf - 1)
+			}
+			return
+		}
 		for _, m := range p.Sets[id].Members {
 			if m.Set >= 0 && !seen[m.Set] {
 				seen[m.Set] = true
@@ -110,7 +118,7 @@ func showModel(p *Program, an *Analysis, s *Set) (imports []string, groups map[s
 	}
 	walk(s.ID)
 	for id := range seen {
-		if id != s.ID && !p.Sets[id].Inline {
+		if id != s.ID && !p.Sets[id].Inline && p.Sets[id].AliasOf == 0 {
 			imports = append(imports, fmt.Sprintf("%q.%s", p.ImportPath(p.Sets[id].Pkg), p.Sets[id].Name))
 		}
 	}
@@ -304,7 +312,21 @@ func CheckC19(e *Env) int {
 		}
 		if genRejects {
 			gc, cc := diagClasses(genDiags), diagClasses(pr.CheckDiags)
-			if classList(gc) != classList(cc) {
+			// check additionally analyses every top-level set variable: classes beyond gen's are
+			// legitimate exactly when the model finds a malformed set variable
+			setsBroken := len(Analyze(pr.P).Sets) > 0
+			differ := false
+			for k := range gc {
+				if !cc[k] {
+					differ = true
+				}
+			}
+			for k := range cc {
+				if !gc[k] && !setsBroken {
+					differ = true
+				}
+			}
+			if differ {
 				violate(fmt.Sprintf("error classes differ: gen {%s} vs check {%s}", classList(gc), classList(cc)), w)
 				continue
 			}
@@ -323,6 +345,19 @@ func CheckC19(e *Env) int {
 		o.Shapes = []string{"nstruct", "nstruct", "pstruct", "nint", "nstring", "slice", "array", "map", "chan", "rchan", "func", "wrapslice", "wrapmap", "basic", "generic", "alias", "pnint", "nfloat", "pslice"}
 		o.Kinds = []string{"func", "func", "func", "struct", "value", "bind", "parent", "arg", "ifunc"}
 	})
+	// provider set variables that are aliases of other set variables
+	for i, p := range showProgs {
+		if i%3 != 0 {
+			continue
+		}
+		for _, t := range append([]*Set(nil), p.Sets...) {
+			if !t.Inline && t.AliasOf == 0 {
+				p.AddSet(&Set{Pkg: t.Pkg, Name: "Alias" + t.Name, AliasOf: t.ID + 1})
+				p.AddSet(&Set{Pkg: t.Pkg, Name: "AliasOfAlias" + t.Name, AliasOf: len(p.Sets)})
+				break
+			}
+		}
+	}
 	var batches [][]*Program
 	for i := 0; i < len(showProgs); i += 24 {
 		j := i + 24
